@@ -84,7 +84,134 @@ func switchOnConsts(info *types.Info, body ast.Node, vals ...int64) (*ast.Switch
 		}
 		return true
 	})
+	if found != nil {
+		return found, clauses
+	}
+	// the same dispatch spelled as an if / else-if chain over one variable
+	inElse := map[*ast.IfStmt]bool{}
+	ast.Inspect(body, func(n ast.Node) bool {
+		ifs, ok := n.(*ast.IfStmt)
+		if !ok || found != nil {
+			return found == nil
+		}
+		if next, isIf := ifs.Else.(*ast.IfStmt); isIf {
+			inElse[next] = true
+		}
+		if inElse[ifs] {
+			return true
+		}
+		sw, isChain := ifChainAsSwitch(info, ifs)
+		if !isChain {
+			return true
+		}
+		m := map[int64]*ast.CaseClause{}
+		for _, c := range sw.Body.List {
+			cc := c.(*ast.CaseClause)
+			for _, e := range cc.List {
+				for _, v := range vals {
+					if constIs(info, e, v) {
+						m[v] = cc
+					}
+				}
+			}
+		}
+		if len(m) == len(vals) {
+			found, clauses = sw, m
+			return false
+		}
+		return true
+	})
 	return found, clauses
+}
+
+// ifChainAsSwitch shows `if v == A { … } else if v == B || v == C { … } else { … }` (one plain variable, constants, no
+// init statements) as the switch over v it is. The clause bodies are the original statement lists; the synthetic nodes
+// are registered with core.SynthOf so that paths and positions resolve to the chain.
+func ifChainAsSwitch(info *types.Info, head *ast.IfStmt) (*ast.SwitchStmt, bool) {
+	var tag ast.Expr
+	var tagVar *types.Var
+	var list []ast.Stmt
+	arms := 0
+	for cur := head; cur != nil; {
+		if cur.Init != nil {
+			return nil, false
+		}
+		var ks []ast.Expr
+		var split func(e ast.Expr) bool
+		split = func(e ast.Expr) bool {
+			e = ast.Unparen(e)
+			if b, isBin := e.(*ast.BinaryExpr); isBin && b.Op == token.LOR {
+				return split(b.X) && split(b.Y)
+			}
+			b, isBin := e.(*ast.BinaryExpr)
+			if !isBin || b.Op != token.EQL {
+				return false
+			}
+			x, k := b.X, b.Y
+			if _, isC := core.ConstInt(info, k); !isC {
+				x, k = k, x
+			}
+			if _, isC := core.ConstInt(info, k); !isC {
+				return false
+			}
+			v := core.VarOf(info, x)
+			if v == nil || v.IsField() || (tagVar != nil && v != tagVar) {
+				return false
+			}
+			if tagVar == nil {
+				tagVar, tag = v, x
+			}
+			ks = append(ks, k)
+			return true
+		}
+		if !split(cur.Cond) {
+			return nil, false
+		}
+		arms += len(ks)
+		cc := &ast.CaseClause{Case: cur.If, List: ks, Colon: cur.Body.Lbrace, Body: cur.Body.List}
+		core.SynthOf[cc] = cur
+		list = append(list, cc)
+		switch e := cur.Else.(type) {
+		case *ast.IfStmt:
+			cur = e
+			continue
+		case *ast.BlockStmt:
+			dc := &ast.CaseClause{Case: e.Lbrace, Colon: e.Lbrace, Body: e.List}
+			core.SynthOf[dc] = e
+			list = append(list, dc)
+		}
+		cur = nil
+	}
+	if arms < 2 && len(list) < 2 {
+		return nil, false
+	}
+	// a bare `break` in a branch leaves an enclosing loop; inside a switch it would leave the switch
+	bare := false
+	var scan func(n ast.Node)
+	scan = func(n ast.Node) {
+		ast.Inspect(n, func(m ast.Node) bool {
+			switch x := m.(type) {
+			case *ast.FuncLit, *ast.ForStmt, *ast.RangeStmt, *ast.SwitchStmt, *ast.TypeSwitchStmt, *ast.SelectStmt:
+				return m == n
+			case *ast.BranchStmt:
+				if x.Tok == token.BREAK && x.Label == nil {
+					bare = true
+				}
+			}
+			return true
+		})
+	}
+	for _, c := range list {
+		for _, st := range c.(*ast.CaseClause).Body {
+			scan(st)
+		}
+	}
+	if bare {
+		return nil, false
+	}
+	sw := &ast.SwitchStmt{Switch: head.If, Tag: tag, Body: &ast.BlockStmt{Lbrace: head.Body.Lbrace, List: list, Rbrace: head.End() - 1}}
+	core.SynthOf[sw] = head
+	return sw, true
 }
 
 // cmpConst matches "v OP const" or "const OP v" and normalises to v OP const.
